@@ -571,6 +571,10 @@ func c11WorkerMain() {
 		c11cReplay(strings.TrimSpace(line))
 		return
 	}
+	if strings.HasPrefix(strings.TrimSpace(line), "c11f ") { // concurrent flushes of different segstores (c11_flush.go)
+		c11fReplay(strings.TrimSpace(line))
+		return
+	}
 	if win, ok := c11ParseWindow(strings.TrimSpace(line)); ok {
 		c11WindowReplay(win)
 		return
@@ -892,6 +896,9 @@ func execConc(line string) Result {
 	if strings.HasPrefix(strings.TrimSpace(line), "c11c") {
 		return c11cExec(line)
 	}
+	if strings.HasPrefix(strings.TrimSpace(line), "c11f") {
+		return c11fExec(line)
+	}
 	_, labels, ok := c11Parse(line)
 	win, isWin := c11ParseWindow(strings.TrimSpace(line))
 	if !ok && !isWin {
@@ -986,7 +993,16 @@ func genConc(r *rand.Rand, n int, tier string) []string {
 	var out []string
 	out = append(out, c11Fixed...)
 	out = append(out, c11cFixed...)
+	out = append(out, c11fFixed...)
 	for len(out) < n {
+		if r.Intn(100) < 12 { // concurrent flushes of different segstores (c11_flush.go)
+			if r.Intn(20) == 0 {
+				out = append(out, []string{"c11f 1 0", "c11f 9 0", "c11f 2 2", "c11f 2 0 / / / / 1", "c11f", "c11f 2 01", "c11f 3 x"}[r.Intn(7)])
+			} else {
+				out = append(out, c11fGenLine(r, tier))
+			}
+			continue
+		}
 		if r.Intn(100) < 40 { // get-or-create of the segstore table (c11_create.go)
 			if r.Intn(25) == 0 {
 				out = append(out, []string{"c11c 0 c0", "c11c 5 c0", "c11c 1 c16", "c11c 1 f1", "c11c 2 e2", "c11c 1 x0", "c11c 1 c", "c11c", "c11c 1 c01"}[r.Intn(9)])
@@ -1035,7 +1051,7 @@ func genConc(r *rand.Rand, n int, tier string) []string {
 
 func init() {
 	register(&Suite{Name: "conc", Parallel: 6, Gen: genConc, Exec: execConc,
-		Rule: "schedules of the Lean interleaving machine (flush / rotation step / query step over 1–3 streams and 1–3 queries, fixed hand-over schedules first) replayed step by step on the real writer, metadata and query code in a fresh engine process each: rotation stopped before each protocol step (instrumented copy of segstore.go), queries stopped after each segment-list snapshot (product hook FilterQsrsHook); compared: order of executed steps, both snapshots, blocks read / count, open and rotated lists, final contents; about 40% of the lines (c11c) are schedules of the get-or-create machine of the segstore table: 2–4 ingest calls doing the first ingest on one new stream (all past the nil check before anyone inserts / one stopped inside createSegStore / after the store was rotated and removed as stale / several streams), each call stopped before getSegStore, Lock, re-check, NewSegStore, the suffix-file write (product hook GetNextSuffixHook), insert, AddEntry (instrumented copy of segwriter.go), steps that would wait for allSegStoresLock skipped on both sides (blocked-step probes included on purpose); compared: executed steps, store every call appended to, stores built (registered / orphan, records), suffix hand-outs, acknowledged vs searchable after flush-all + rotate-all; non-trivial = ≥3 labels"})
+		Rule: "schedules of the Lean interleaving machine (flush / rotation step / query step over 1–3 streams and 1–3 queries, fixed hand-over schedules first) replayed step by step on the real writer, metadata and query code in a fresh engine process each: rotation stopped before each protocol step (instrumented copy of segstore.go), queries stopped after each segment-list snapshot (product hook FilterQsrsHook); compared: order of executed steps, both snapshots, blocks read / count, open and rotated lists, final contents; about 12% of the lines (c11f) are schedules of CONCURRENT FLUSHES OF 2–8 DIFFERENT SEGSTORES (own indexes; stores 5–7 second streams of indexes 0–2), 1–3 blocks each: every flush (the real AppendWipToSegfile under the store's own lock, one goroutine per store) stopped before the block summary is encoded and before it is written to the .bsu file (instrumented copy of segstore.go), 2–4 stores taken between the two points at once and released in a random order, then everything rotated; compared: the block summaries read back from every segment's .bsu file; PropFail: a summary outside the time window of its own store, unreadable .bsu, a flushed event not searchable after rotation; about 40% of the lines (c11c) are schedules of the get-or-create machine of the segstore table: 2–4 ingest calls doing the first ingest on one new stream (all past the nil check before anyone inserts / one stopped inside createSegStore / after the store was rotated and removed as stale / several streams), each call stopped before getSegStore, Lock, re-check, NewSegStore, the suffix-file write (product hook GetNextSuffixHook), insert, AddEntry (instrumented copy of segwriter.go), steps that would wait for allSegStoresLock skipped on both sides (blocked-step probes included on purpose); compared: executed steps, store every call appended to, stores built (registered / orphan, records), suffix hand-outs, acknowledged vs searchable after flush-all + rotate-all; non-trivial = ≥3 labels"})
 }
 
 func init() { registerWorker("c11worker", c11WorkerMain) }
